@@ -29,7 +29,7 @@ RULE = ('case = (role server|client, masking key of the peer or none, item seque
         'write (str/bytes/bytearray), local close. Cut sets: none, every single cut inside/around every frame header and around '
         'every payload end, every pair of cuts inside a header region, fixed-size chunks (1 = byte at a time, 2, 3, 7, 1460, 4096). '
         'All cases of the five families (lengths x header cuts, fragmentation x control frames, sequences of 1-3 items, outgoing '
-        'writes, client role with the first k bytes handed to the constructor as initial data) are executed once each; '
+        'writes, client role with the first k bytes handed to the constructor as initial data - the rest read after, or before, the codec has handled its `registered` event) are executed once each; '
         'non-trivial = a cut strictly inside a frame, a fragmented message, a control frame, a local action, initial data or an '
         'extended length; distinct = distinct case')
 ASSUMPTIONS = [
@@ -448,7 +448,7 @@ class Listener(BaseComponent):
 
 
 class World:
-    def __init__(self, role, okeys, init_data=None):
+    def __init__(self, role, okeys, init_data=None, settle_first=True):
         self.log = []
         self.step = -1
         self.role = role
@@ -472,7 +472,9 @@ class World:
             self.log.append(('exc', self.step, type(exc).__name__, ('in constructor: ' + str(exc))[:80]))
         if self.codec is not None:
             self.codec.register(self.top)
-        self.quiescent = self.settle()
+        # settle_first False: the transport has read the next segment before the codec's `registered` event was handled (what a
+        # busy client sees: the reads polled while the 101 response was being dealt with are queued behind it)
+        self.quiescent = self.settle() if settle_first else True
 
     def settle(self, horizon=60):
         top = self.top
@@ -509,7 +511,7 @@ def execute(case):
     offs = cut_offsets(case, b)
     if init:
         offs = sorted(set(offs) | ({init} if init < len(b.stream) else set()))
-    w = World(case['role'], case.get('okeys'), b.stream[:init] if init else None)
+    w = World(case['role'], case.get('okeys'), b.stream[:init] if init else None, settle_first=not case.get('eager'))
     points = [0] + offs + [len(b.stream)]
     acts = sorted(b.actions, key=lambda a: (a[0], a[1]))
     ai = 0
@@ -948,6 +950,9 @@ def fam_initial(tier):
             for k in sorted(set(header_singles(items, False)) | {total}):
                 yield {'fam': 'initial', 'role': 'client', 'key': None, 'items': items, 'init': k,
                        'cutlists': [[]] + ([['chunk', 1]] if total - k <= 300 and k < total else [])}
+                if k < total:
+                    # ... and with the next segment read before the codec has seen its `registered` event
+                    yield {'fam': 'initial', 'role': 'client', 'key': None, 'items': items, 'init': k, 'eager': True, 'cutlists': [[]]}
 
 
 FAMILIES = (('lengths', fam_lengths), ('fragments', fam_fragments), ('sequences', fam_sequences), ('outgoing', fam_outgoing),
@@ -969,7 +974,7 @@ def cases(tier):
 
 
 def case_json(case):
-    return {k: case[k] for k in ('role', 'key', 'items', 'cuts', 'okeys', 'init', 'fam') if k in case}
+    return {k: case[k] for k in ('role', 'key', 'items', 'cuts', 'okeys', 'init', 'eager', 'fam') if k in case}
 
 
 def run_case(case):
